@@ -251,6 +251,12 @@ def do_download(client, idx, sub, data, sized, force, offers, mode, record=None)
             rem = rem[n:]
         fp.close()
         return
+    if mode[0] == "t":
+        # text mode (TextIOWrapper over the buffered stream); 't1' = line buffering
+        kw = {"buffering": 1} if mode == "t1" else {}
+        with client.open(idx, sub, "w", size=size, force_segment=force, **kw) as fp:
+            fp.write(data.decode("ascii"))
+        return
     bs, k = parse_mode(mode)
     with client.open(idx, sub, "wb", buffering=bs, size=size, force_segment=force) as fp:
         if k is None:
@@ -275,6 +281,10 @@ def do_upload(client, idx, sub, mode):
             out += d
         fp.close()
         return out
+    if mode[0] == "t":
+        kw = {"buffering": 1} if mode == "t1" else {}
+        with client.open(idx, sub, "r", **kw) as fp:
+            return fp.read().encode("ascii")
     bs, k = parse_mode(mode)
     if bs == 0:
         # unbuffered, read(k): the size argument is documented as ignored (one segment per call)
@@ -512,7 +522,7 @@ def finish_op(held, style, mode, xfers_raw):
         for x, seen, rd in zip(xfers, rec, reads):
             if x[0] == "d":
                 out.append(dl_token(x[1], x[2], x[3], x[4], x[5], seen))
-            elif mode[0] == "b" and rd:
+            elif mode[0] in "bt" and rd:
                 out.append(f"u:{x[1]}:{x[2]}:{x[3]}:{c04.nl([a_ for a_, _ in rd])}")
             else:
                 out.append(f"u:{x[1]}:{x[2]}:{x[3]}")
@@ -568,6 +578,15 @@ def gen_ops(tier, rng):
             for t in ODTYPES:
                 yield finish_op(held, (True, True, True, []), "api", [f"u:{idx}:{sub}:{t}"])
     yield finish_op("-", default_style, "api", ["u:8192:0:x"])          # nothing held: abort
+    # text mode of open(): printable ASCII without line ends (TextIOWrapper translates those by design)
+    for n in [0, 1, 3, 4, 5, 7, 8, 14, 20, 64] + ([] if tier == "quick" else [100, 1000]):
+        data = bytes(rng.choice(b"ABCXYZabcxyz0189 ._-+/") for _ in range(n))
+        idx, sub = rng.choice(MUXES)
+        for mode in ("t", "t1"):
+            for sized in (True, False):
+                yield finish_op("-", default_style, mode, [dl_token(idx, sub, data, sized, False, [])])
+            yield finish_op(f"{idx}.{sub}={c04.hx(data)}", (True, True, True, [rng.randint(1, 7) for _ in range(8)]),
+                            mode, [f"u:{idx}:{sub}:x"])
     # back-to-back histories on one client
     for _ in range(150 if tier == "quick" else 1500):
         xs = []
